@@ -21,6 +21,10 @@ func main() {
 	flag.CommandLine.Parse(nil)
 	flag.Set("rapid.nofailfile", "true")
 	args := os.Args[1:]
+	if len(args) == 1 && args[0] == "freshseeds" {
+		harness.FreshSeedsMain()
+		return
+	}
 	if len(args) == 0 {
 		fmt.Println("usage: vcheck run|worker|replay|list ...")
 		os.Exit(2)
@@ -54,6 +58,8 @@ func main() {
 	case "worker":
 		dl, _ := strconv.ParseInt(opt["deadline"], 10, 64)
 		harness.WorkerMain(pos[0], opt["tier"], seed, dl)
+	case "freshseeds":
+		harness.FreshSeedsMain()
 	case "unit": // debugging aid: vcheck unit <ID> <unit name substring>
 		harness.DebugUnit(pos[0], pos[1], opt["tier"], seed)
 	case "replay":
